@@ -135,10 +135,21 @@ def run(ctx):
     for key in ("noodles_cram::io::reader::container::read_container", "noodles_cram::r#async::io::reader::container::read_container"):
         f = ctx.body("C13.R3", key)
         if f is not None:
-            if R.find_calls(f, r"::read_exact$"):
+            rx_calls = {b for b, c in R.find_calls(f, r"::read_exact$")}
+            if rx_calls:
                 ctx.ok("C13.R3", key + " reads the container body with read_exact", "", f.loc())
             else:
                 ctx.violation("C13.R3", "C13.R3/body-read/" + key, "%s no longer reads the container body with read_exact" % key, f.loc())
+            # every exit passes a read_exact: also the EOF container is only complete with its body (defect F37: a file cut
+            # inside the last 15 bytes was read as complete)
+            ex = C.success_exit_blocks(f)
+            around = [e for e in ex if e in C.reachable(f, 0, removed=rx_calls)]
+            if rx_calls and around:
+                ctx.violation("C13.R3", "C13.R3/eof-body-not-read/" + key,
+                              "%s can report success (the end-of-file container included) without a read_exact of the container body: a file "
+                              "that ends inside its EOF container is read as complete" % key, f.loc(around[0]))
+            elif rx_calls:
+                ctx.ok("C13.R3", key + " :: every success exit (EOF container included) passes a read_exact of the body", "", f.loc())
 
     ctx.rule("C13.R4", "index readers: no raw read(); counts converted with try_from")
     raw = [s for s in a5.raw_io_sites(fb, a5.RAW_READ) if INDEX_READERS.search(s["fn"])]
